@@ -141,20 +141,17 @@ impl PrCfg {
     }
 }
 fn pr_cfgs() -> Vec<PrCfg> {
-    let mut v = Vec::new();
-    v.push(PrCfg { dn: 1, dd: 2, iters: 0, tol_d: 0, dang: true });
-    for it in 1..=3 {
-        for dang in [true, false] {
-            v.push(PrCfg { dn: 1, dd: 2, iters: it, tol_d: 0, dang });
-        }
-    }
-    for dang in [true, false] {
-        v.push(PrCfg { dn: 3, dd: 4, iters: 2, tol_d: 0, dang });
-    }
-    v.push(PrCfg { dn: 3, dd: 4, iters: 3, tol_d: 10, dang: true });
-    v.push(PrCfg { dn: 3, dd: 4, iters: 3, tol_d: 10000, dang: true });
-    v.push(PrCfg { dn: 1, dd: 4, iters: 3, tol_d: 10, dang: false });
-    v
+    vec![
+        PrCfg { dn: 1, dd: 2, iters: 0, tol_d: 0, dang: true },
+        PrCfg { dn: 1, dd: 2, iters: 1, tol_d: 0, dang: true },
+        PrCfg { dn: 1, dd: 2, iters: 2, tol_d: 0, dang: false },
+        PrCfg { dn: 1, dd: 2, iters: 3, tol_d: 0, dang: true },
+        PrCfg { dn: 3, dd: 4, iters: 2, tol_d: 0, dang: true },
+        PrCfg { dn: 3, dd: 4, iters: 2, tol_d: 0, dang: false },
+        PrCfg { dn: 3, dd: 4, iters: 3, tol_d: 10, dang: true },
+        PrCfg { dn: 3, dd: 4, iters: 3, tol_d: 10000, dang: true },
+        PrCfg { dn: 1, dd: 4, iters: 3, tol_d: 10, dang: false },
+    ]
 }
 fn with(mut base: serde_json::Map<String, Value>, extra: Value) -> Value {
     for (k, v) in extra.as_object().unwrap() {
@@ -393,7 +390,9 @@ fn run_graph(tr: &mut Trace, sc: &Script, proj: &str, rep: bool, pools: &Pools, 
                     }
                 }
             }
-            runs.push(json!({"via": "crate", "algo": "bfs", "metric": "hops", "wp": wp, "res": rb}));
+            if *wp != "w2" {
+                runs.push(json!({"via": "crate", "algo": "bfs", "metric": "hops", "wp": wp, "res": rb}));
+            }
             runs.push(json!({"via": "crate", "algo": "dijkstra", "metric": if wp.is_empty() { "hops" } else { "weight" }, "wp": wp, "res": rd}));
             if wp.is_empty() {
                 tr.emit(json!({"ev": "AllPaths", "runs": [{"via": "crate", "res": ra}]}))?;
@@ -777,6 +776,21 @@ fn run(scripts: &str, trace: &str, opts: &Opts) -> Res<()> {
     let pools = Pools::new();
     let only = opts.get_str("only", "");
     let repalgos = opts.get_str("repalgos", "");
+    if opts.get_str("mode", "graphs") == "probe" {
+        // not part of any check: does edmonds_karp(s, s) return?  (run in a thread; the process exits afterwards)
+        let g = Graph { n: 2, edges: vec![Edge { s: 1, d: 2, w: 1, t: "T".into() }] };
+        let (tx, rx) = std::sync::mpsc::channel();
+        std::thread::spawn(move || {
+            let v = view_of(&g, &[1, 2], "w", 1);
+            let r = edmonds_karp(&v, 1, 1).map(|r| r.max_flow);
+            let _ = tx.send(r);
+        });
+        match rx.recv_timeout(std::time::Duration::from_secs(opts.get_u64("secs", 5))) {
+            Ok(r) => println!("edmonds_karp(1,1) returned {r:?}"),
+            Err(_) => println!("edmonds_karp(1,1) did not return within the time limit"),
+        }
+        std::process::exit(0);
+    }
     if opts.get_str("mode", "graphs") == "random" {
         let mut rng = StdRng::seed_from_u64(opts.get_u64("seed", 1));
         let count = opts.get_u64("count", 10);
